@@ -178,6 +178,7 @@ def c07(tier, seed):
             "called_and_stopped",
             "contradictory_lists",
             "unknown_contest_named",
+            "called_contest_without_any_vote",
         ]
     )
 
@@ -250,6 +251,10 @@ def bootstrap_client_traces(run, tier, seed, cfg, n_quick=24, n_thorough=240):
                 run.witness("run_with_extrapolating_units")
             if val.get("presidential"):
                 run.witness("run_with_presidential_correction")
+            if val.get("set_aside") and any(g["table"] == "classification_data" for g in val["groups"]):
+                run.witness("classification_groups_with_set_aside_units")
+            if val.get("empty_contest"):
+                run.witness("called_contest_without_any_vote")
             if val.get("fully_reported") and any(g["top"] and g["name"] in val["stop"] for g in val["groups"]):
                 run.witness("fully_reported_run_with_stopped_contest")
         else:
@@ -283,7 +288,7 @@ def c06(tier, seed):
     _validate_bootstrap(run, traces, "Trace_Bootstrap_C06.cfg")
     run.sample({"bounds_record": traces[-1]})
     bootstrap_client_traces(run, tier, seed, "Trace_Bootstrap_C06.cfg")
-    run.finish(require_witnesses=["rank_records", "bounds_records", "client_run", "district_office_run", "run_with_extrapolating_units", "run_with_presidential_correction", "B_2", "B_40"])
+    run.finish(require_witnesses=["rank_records", "bounds_records", "client_run", "district_office_run", "run_with_extrapolating_units", "run_with_presidential_correction", "classification_groups_with_set_aside_units", "B_2", "B_40"])
 
 
 # ---------------------------------------------------------------------------------------------------------------
@@ -300,6 +305,15 @@ def _job_natsum_inject(arg):
         except Exception as e:  # noqa: BLE001
             obs = {"kind": "raised", "pred": 0, "lower": 0, "upper": 0, "exc": f"{type(e).__name__}: {str(e)[:200]}"}
         out.append({"kind": "inject", "ns": dict(ns, history=[]), "obs": obs})
+        if len(out) % 5 == 0 and ns["nweights"] == len(ns["p"]):
+            # the same scenario under the sigmoid threshold (agg_model_hard_threshold = False): the summary is then a real
+            # number and only the ordering clause of the property applies (seeded change C08_E)
+            T = (10, 50, 1000, 5000)[(len(out) // 5) % 4]
+            try:
+                o2 = calls.run_summary_injected(ns, sigmoid_T=T)
+            except Exception as e:  # noqa: BLE001
+                o2 = {"kind": "raised", "pred": 0, "lower": 0, "upper": 0, "exc": f"{type(e).__name__}: {str(e)[:200]}"}
+            out.append({"kind": "sigmoid", "T": T, "base100": int(ns["base"]) * 100, "tot100": 100 * sum(ns["w"].values()), "obs": o2, "scenario": dict(ns, history=[])})
     return out
 
 
@@ -433,6 +447,11 @@ def c08(tier, seed):
     for out in common.pool().map(_job_natsum_inject, jobs, chunksize=1):
         traces.extend(out)
     for t in traces:
+        if t["kind"] == "sigmoid":
+            o = t["obs"]
+            if o["kind"] == "ok" and o["pred"] % 100 != 0:
+                run.witness("sigmoid_summary_with_unsaturated_contest")
+            continue
         ns, o = t["ns"], t["obs"]
         if o["kind"] == "ok" and o["lower"] < o["pred"] < o["upper"]:
             run.witness("summary_with_losses_and_gains")
@@ -458,6 +477,8 @@ def c08(tier, seed):
         facts = {"clause": clause, "kind": tr["kind"], "invariant": inv}
         if tr["kind"] == "inject":
             facts["corr"] = tr["ns"]["corr"]
+        if tr["kind"] == "sigmoid":
+            facts["T"] = tr["T"]
         run.violation(clause, facts, {"trace": tr})
 
     n_ok = tracecheck.validate("Trace_NationalSummary", "Trace_NationalSummary.cfg", traces, on_reject, run=run, chunk=4000)
@@ -465,5 +486,5 @@ def c08(tier, seed):
     run.sample({"injected": traces[0]})
     run.sample({"history": [t for t in traces if t["kind"] == "history"][:1]})
     run.finish(
-        require_witnesses=["summary_with_losses_and_gains", "wrong_size_dictionary", "called_and_stopped_contests", "correlation_mode", "quantile_draw_mode", "histories_compared", "client_summary"]
+        require_witnesses=["summary_with_losses_and_gains", "wrong_size_dictionary", "called_and_stopped_contests", "correlation_mode", "quantile_draw_mode", "histories_compared", "client_summary", "sigmoid_summary_with_unsaturated_contest"]
     )
